@@ -242,4 +242,144 @@ theorem seg_opt (p0 p1 q : V) (lam : Rat) (h0 : 0 ≤ lam) (h1 : lam ≤ 1) :
       nlinarith [mul_self_nonneg B]
     rw [hAz, hBz]; simp
 
+/-! ### the linear interpolant: knots of exact chord lengths, segment selection of `lerp` -/
+
+/-- consecutive knots differ by (segment length)/T, segment lengths positive -/
+def KnotOK (T : Rat) : List Rat → List V → Prop
+  | t0 :: t1 :: ts, p0 :: p1 :: ps =>
+      t0 < t1 ∧ ((t1 - t0) * T) * ((t1 - t0) * T) = dist2 p1 p0 ∧ KnotOK T (t1 :: ts) (p1 :: ps)
+  | [_], [_] => True
+  | _, _ => False
+
+/-- `ds` are exact, positive distances of consecutive points of `ps` -/
+def SegWitPos : List V → List Rat → Prop
+  | p :: q :: rest, d :: ds => 0 < d ∧ d * d = dist2 q p ∧ SegWitPos (q :: rest) ds
+  | [_], [] => True
+  | _, _ => False
+
+/-- knots from an offset: `c/T :: (cumsum from c)/T` -/
+def knotsFrom (T c : Rat) (ds : List Rat) : List Rat := (c / T) :: (cumsumFrom c ds).map (· / T)
+
+theorem knotsFrom_cons (T c d : Rat) (ds : List Rat) :
+    knotsFrom T c (d :: ds) = (c / T) :: knotsFrom T (c + d) ds := rfl
+
+theorem knotParams_eq (ds : List Rat) : knotParams ds = knotsFrom (total ds) 0 ds := by
+  simp [knotParams, knotsFrom]
+
+theorem knotsFrom_ok (T : Rat) (hT : 0 < T) : ∀ (ps : List V) (ds : List Rat) (c : Rat), SegWitPos ps ds →
+    KnotOK T (knotsFrom T c ds) ps ∧ (∀ t ∈ knotsFrom T c ds, c / T ≤ t) ∧
+      (knotsFrom T c ds).Pairwise (· < ·) ∧ (knotsFrom T c ds).getLast? = some ((c + total ds) / T) ∧
+      (knotsFrom T c ds).length = ps.length
+  | [], _, _, h => by simp [SegWitPos] at h
+  | [_], [], c, _ => by simp [knotsFrom, cumsumFrom, KnotOK, total]
+  | [_], _ :: _, _, h => by simp [SegWitPos] at h
+  | p :: q :: rest, [], _, h => by simp [SegWitPos] at h
+  | p :: q :: rest, d :: ds, c, h => by
+      obtain ⟨hd0, hd, hrest⟩ := h
+      obtain ⟨ih1, ih2, ih3, ih4, ih5⟩ := knotsFrom_ok T hT (q :: rest) ds (c + d) hrest
+      have hlt : c / T < (c + d) / T := by
+        apply div_lt_div_of_pos_right _ hT; linarith
+      rw [knotsFrom_cons]
+      have hne : T ≠ 0 := ne_of_gt hT
+      refine ⟨?_, ?_, ?_, ?_, ?_⟩
+      · -- KnotOK: the tail starts with (c+d)/T
+        have htail : knotsFrom T (c + d) ds = ((c + d) / T) :: (cumsumFrom (c + d) ds).map (· / T) := rfl
+        rw [htail] at ih1 ⊢
+        refine ⟨hlt, ?_, ih1⟩
+        have : ((c + d) / T - c / T) * T = d := by field_simp; ring
+        rw [this, hd]
+      · intro t ht
+        simp only [List.mem_cons] at ht
+        rcases ht with rfl | ht
+        · exact le_refl _
+        · exact le_trans (le_of_lt hlt) (ih2 t ht)
+      · rw [List.pairwise_cons]
+        exact ⟨fun t ht => lt_of_lt_of_le hlt (ih2 t ht), ih3⟩
+      · have hne' : knotsFrom T (c + d) ds ≠ [] := by simp [knotsFrom]
+        rw [List.getLast?_cons_of_ne_nil hne', ih4]
+        simp only [total, List.foldr]
+        congr 2; ring
+      · simp [ih5]
+
+theorem lerpV_one_zero (p0 p1 p2 : V) : lerpV p0 p1 1 = lerpV p1 p2 0 := by
+  simp [lerpV]
+
+/-- inside one knot interval both curve points are given by the same segment formula -/
+theorem lerp_same_segment (T : Rat) : ∀ (ts : List Rat) (ps : List V), KnotOK T ts ps → 2 ≤ ts.length →
+    ∀ (x z : Rat) (t0 tl : Rat), ts.head? = some t0 → ts.getLast? = some tl → t0 ≤ x → x ≤ z → z ≤ tl →
+    (∀ t ∈ ts, ¬ (x < t ∧ t < z)) →
+    ∃ (q0 q1 : V) (s0 s1 : Rat), s0 < s1 ∧ ((s1 - s0) * T) * ((s1 - s0) * T) = dist2 q1 q0 ∧
+      lerp ts ps x = some (lerpV q0 q1 ((x - s0) / (s1 - s0))) ∧
+      lerp ts ps z = some (lerpV q0 q1 ((z - s0) / (s1 - s0)))
+  | [], _, _, hlen, _, _, _, _, _, _, _, _, _, _ => by simp at hlen
+  | [_], _, _, hlen, _, _, _, _, _, _, _, _, _, _ => by simp at hlen
+  | t0' :: t1 :: ts, [], h, _, _, _, _, _, _, _, _, _, _, _ => by simp [KnotOK] at h
+  | t0' :: t1 :: ts, [_], h, _, _, _, _, _, _, _, _, _, _, _ => by simp [KnotOK] at h
+  | t0' :: t1 :: ts, p0 :: p1 :: ps, h, _, x, z, t0, tl, h0, hl, hx, hxz, hz, hno => by
+      obtain ⟨h01, hseg, hrest⟩ := h
+      simp only [List.head?_cons, Option.some.injEq] at h0
+      subst h0
+      have hne : t1 - t0' ≠ 0 := ne_of_gt (sub_pos.mpr h01)
+      by_cases hx1 : x < t1
+      · have hz1 : z ≤ t1 := by
+          by_contra hc
+          exact hno t1 (by simp) ⟨hx1, not_le.mp hc⟩
+        refine ⟨p0, p1, t0', t1, h01, hseg, ?_, ?_⟩
+        · simp only [lerp]; rw [if_pos ⟨hx, le_of_lt hx1⟩]
+        · simp only [lerp]; rw [if_pos ⟨le_trans hx hxz, hz1⟩]
+      · have hx1' : t1 ≤ x := not_lt.mp hx1
+        by_cases hz1 : z ≤ t1
+        · have hxe : x = t1 := le_antisymm (le_trans hxz hz1) hx1'
+          have hze : z = t1 := le_antisymm hz1 (le_trans hx1' hxz)
+          refine ⟨p0, p1, t0', t1, h01, hseg, ?_, ?_⟩
+          · simp only [lerp]; rw [if_pos ⟨hx, by rw [hxe]⟩]
+          · simp only [lerp]; rw [if_pos ⟨le_trans hx hxz, hz1⟩]
+        · have hz1' : t1 < z := not_le.mp hz1
+          -- the tail has at least two knots, otherwise z ≤ t1
+          match ts, ps, hrest, hl, hno with
+          | [], _, _, hl, _ =>
+              simp at hl; subst hl; exact absurd hz (not_le.mpr hz1')
+          | t2 :: ts', [], hrest, _, _ => simp [KnotOK] at hrest
+          | t2 :: ts', p2 :: ps', hrest, hl, hno =>
+              have hl' : (t1 :: t2 :: ts').getLast? = some tl := by
+                simpa [List.getLast?_cons_cons] using hl
+              obtain ⟨q0, q1, s0, s1, hs01, hsseg, hlx, hlz⟩ :=
+                lerp_same_segment T (t1 :: t2 :: ts') (p1 :: p2 :: ps') hrest (by simp) x z t1 tl rfl hl'
+                  hx1' hxz hz (fun t ht => hno t (List.mem_cons_of_mem _ ht))
+              refine ⟨q0, q1, s0, s1, hs01, hsseg, ?_, ?_⟩
+              · by_cases hxe : x = t1
+                · -- x is the knot t1: the first segment gives p1 = lerpV p0 p1 1, the tail gives the same point
+                  have h12 : t1 < t2 := hrest.1
+                  have e1 : lerp (t0' :: t1 :: t2 :: ts') (p0 :: p1 :: p2 :: ps') x = some (lerpV p0 p1 1) := by
+                    simp only [lerp]; rw [if_pos ⟨hx, by rw [hxe]⟩, hxe, div_self hne]
+                  have e2 : lerp (t1 :: t2 :: ts') (p1 :: p2 :: ps') x = some (lerpV p1 p2 0) := by
+                    simp only [lerp]; rw [if_pos ⟨hx1', by rw [hxe]; exact le_of_lt h12⟩, hxe]; simp
+                  rw [e1, lerpV_one_zero p0 p1 p2, ← e2, hlx]
+                · have : t1 < x := lt_of_le_of_ne hx1' (Ne.symm hxe)
+                  simp only [lerp]
+                  rw [if_neg (by intro hh; exact absurd hh.2 (not_le.mpr this))]
+                  exact hlx
+              · simp only [lerp]
+                rw [if_neg (by intro hh; exact absurd hh.2 hz1)]
+                exact hlz
+
+theorem total_pos : ∀ (ps : List V) (ds : List Rat), SegWitPos ps ds → 2 ≤ ps.length → 0 < total ds
+  | [], _, h, _ => by simp [SegWitPos] at h
+  | [_], _, _, hl => by simp at hl
+  | p :: q :: rest, [], h, _ => by simp [SegWitPos] at h
+  | p :: q :: rest, d :: ds, h, _ => by
+      obtain ⟨hd0, _, hrest⟩ := h
+      simp only [total, List.foldr]
+      match rest, ds, hrest with
+      | [], [], _ => simp; exact hd0
+      | [], _ :: _, hrest => simp [SegWitPos] at hrest
+      | r :: rest', ds', hrest =>
+          have := total_pos (q :: r :: rest') ds' hrest (by simp)
+          simp only [total] at this
+          linarith
+
+open CBV.C08 (Vec) in
+theorem dist2_symm (p q : V) : dist2 p q = dist2 q p := by
+  simp only [dist2, Vec.nsq, Vec.dot, Vec.sub]; ring
+
 end CBV.C16
